@@ -5,7 +5,9 @@ silenced by their dry-run flag.  Each row is read off the source:
 
   repository.rs      `delete_snapshots` (guard, ErrorKind::Repository), `save_snapshots`, `delete_key`, `add_key`,
                      `apply_config` (commands/config.rs guard), `init_hot`, `warm_up`, read-only methods
-  commands/backup.rs `backup` (`DryRunBackend::new(dbe, opts.dry_run)`), archiver (packs, index, snapshot)
+  commands/backup.rs `archive` (`DryRunBackend::new(dbe, opts.dry_run)`), archiver (packs, index, snapshot); `backup`
+                     picks the source (`BackupSource`: local paths | stdin | stdin command) and hands the caller's
+                     options on to `archive` — how, is modelled statement by statement in `Model/CommandSteps.lean`
   commands/prune.rs  `prune_repository` (guard first; then packs/index written, index/packs removed),
                      `PrunePlan::from_prune_options` (reads only)
   commands/repair/index.rs      `repair_index` (guard first; `dry_run` skips save/remove)
@@ -70,9 +72,22 @@ inductive ConfigChange where
   | rejected (setAppendOnly : Option Bool) (why : Rejection)
   deriving Repr, DecidableEq
 
+/-- where a backup reads from.  `Repository::archive` takes the caller's `ReadSource` (`readSource`);
+`Repository::backup` (commands/backup.rs `backup`) builds the source itself: `source == "-"` → `ChildStdoutSource` when
+`opts.stdin_command` is set (`stdinCommand`), else `StdinSource` (`stdin`); any other path list → `LocalSource`
+(`localPaths`). -/
+inductive BackupSource where
+  | readSource
+  | localPaths
+  | stdin
+  | stdinCommand
+  deriving Repr, DecidableEq
+
+def allBackupSources : List BackupSource := [.readSource, .localPaths, .stdin, .stdinCommand]
+
 /-- public operations (with the flags that matter for storage traffic). -/
 inductive Cmd where
-  | backup (dryRun : Bool)
+  | backup (src : BackupSource) (dryRun : Bool)
   | deleteSnapshots
   | saveSnapshots
   | prunePlan
@@ -114,7 +129,8 @@ def hotcoldCopies : List Op := [.write .config, .write .index, .write .key, .wri
 /-- `run hotCold appendOnly cmd` on an existing repository (`hotCold`: it has a hot part; the operations of both
 stores are merged). -/
 def run (hotCold appendOnly : Bool) : Cmd → Outcome
-  | .backup dry => .runs (if dry then [] else dataWrites ++ [.write .snapshot])
+  -- the same row for every source kind: the source decides what is read, never where (or whether) it is written
+  | .backup _ dry => .runs (if dry then [] else dataWrites ++ [.write .snapshot])
   | .deleteSnapshots => if appendOnly then .refused .repository else .runs [.remove .snapshot]
   | .saveSnapshots => .runs [.write .snapshot]
   | .prunePlan => .runs []
@@ -147,7 +163,7 @@ def run (hotCold appendOnly : Bool) : Cmd → Outcome
   | .readOnly => .runs []
 
 def Cmd.isDryRun : Cmd → Bool
-  | .backup d => d
+  | .backup _ d => d
   | .repairIndex d => d
   | .repairSnapshots _ d => d
   | .rewriteSnapshots _ d => d
@@ -160,7 +176,7 @@ def Cmd.isDryRun : Cmd → Bool
 
 /-- the public `Repository` methods a row stands for. -/
 def Cmd.methods : Cmd → List String
-  | .backup _ => ["backup", "archive"]
+  | .backup _ _ => ["backup", "archive"]
   | .deleteSnapshots => ["delete_snapshots"]
   | .saveSnapshots => ["save_snapshots"]
   | .prunePlan => ["prune_plan"]
@@ -195,7 +211,7 @@ def Cmd.methods : Cmd → List String
 
 /-- one representative per row (the flags do not change `methods`). -/
 def allCmds : List Cmd :=
-  [.backup false, .deleteSnapshots, .saveSnapshots, .prunePlan, .prune, .repairIndex false, .repairSnapshots false false,
+  [.backup .readSource false, .deleteSnapshots, .saveSnapshots, .prunePlan, .prune, .repairIndex false, .repairSnapshots false false,
    .rewriteSnapshots false false, .rewriteTrees false false, .applyConfig (.other false), .addKey, .deleteKey, .copyInto,
    .mergeSnapshots, .repairHotcold false, .prepareRestore false, .init, .initWithConfig false, .initHot, .readOnly]
 
@@ -208,7 +224,7 @@ inductive DrySource where
   deriving Repr, DecidableEq
 
 def Cmd.drySource : Cmd → Option DrySource
-  | .backup _ => some (.field "commands/backup.rs:BackupOptions")
+  | .backup _ _ => some (.field "commands/backup.rs:BackupOptions")
   | .rewriteSnapshots _ _ => some (.field "commands/rewrite.rs:RewriteOptions")
   | .rewriteTrees _ _ => some (.field "commands/rewrite.rs:RewriteOptions")
   | .repairIndex _ => some .param
@@ -298,8 +314,12 @@ def expected (s : Scen) (cmd : String) : Option (String × String × Scen) :=
   let snapW : String := if s.snapshots > 0 then "w.snapshot" else "-"
   let forgetW : String := if s.snapshots > 0 then "r.snapshot+w.snapshot" else "-"
   match cmd with
-  | "backup.new" | "backup.same" => some ("ok", "w.snapshot", { s with snapshots := s.snapshots + 1 })
-  | "backup.dry.new" | "backup.dry.same" => some ("ok", "-", s)
+  -- every source kind (`Repository::archive` with the harness' source; `Repository::backup` of a local directory;
+  -- `Repository::backup` of `-` with a stdin command): the same expectation
+  | "backup.new" | "backup.same" | "backup.local.new" | "backup.local.same" | "backup.cmd.new" | "backup.cmd.same" =>
+    some ("ok", "w.snapshot", { s with snapshots := s.snapshots + 1 })
+  | "backup.dry.new" | "backup.dry.same" | "backup.local.dry.new" | "backup.local.dry.same"
+  | "backup.cmd.dry.new" | "backup.cmd.dry.same" => some ("ok", "-", s)
   | "forget" =>
     if on then some ("err:Repository", "-", s)
     else some ("ok", if s.snapshots > 0 then "r.snapshot" else "-", { s with snapshots := s.snapshots - 1 })
@@ -379,8 +399,12 @@ def observe (s : Scen) (cmd : String) : Option (String × Scen) :=
 /-- the table row a harness token stands for (ties `expected` to `run` in `Props/C15`). -/
 def cmdOfToken (cmd : String) : Option Cmd :=
   match cmd with
-  | "backup.new" | "backup.same" => some (.backup false)
-  | "backup.dry.new" | "backup.dry.same" => some (.backup true)
+  | "backup.new" | "backup.same" => some (.backup .readSource false)
+  | "backup.dry.new" | "backup.dry.same" => some (.backup .readSource true)
+  | "backup.local.new" | "backup.local.same" => some (.backup .localPaths false)
+  | "backup.local.dry.new" | "backup.local.dry.same" => some (.backup .localPaths true)
+  | "backup.cmd.new" | "backup.cmd.same" => some (.backup .stdinCommand false)
+  | "backup.cmd.dry.new" | "backup.cmd.dry.same" => some (.backup .stdinCommand true)
   | "forget" => some .deleteSnapshots
   | "prune" | "prune.instant" | "prune.all" | "prune.early" | "prune.instant.early" | "prune.instant.all" | "prune.fast"
   | "prune.uncomp" | "prune.cacheable" | "prune.noresize" | "prune.unused0.repackunl" | "prune.keepdel.keeppack"
@@ -453,6 +477,11 @@ def dryTwin (damage cmd : String) : Option (String × List Op) :=
   match damage, cmd with
   | "none", "backup.dry.new" | "none", "backup.dry.same" | "hc", "backup.dry.new" | "hc", "backup.dry.same"
   | "dmg", "backup.dry.same" => some ("ok", [.write .snapshot])
+  -- the other source kinds, through `Repository::backup`
+  | "none", "backup.cmd.dry.new" | "none", "backup.cmd.dry.same" | "hc", "backup.cmd.dry.new" | "hc", "backup.cmd.dry.same"
+  | "dmg", "backup.cmd.dry.new" | "hcdmg", "backup.cmd.dry.same"
+  | "none", "backup.local.dry.new" | "none", "backup.local.dry.same" | "hc", "backup.local.dry.new"
+  | "hc", "backup.local.dry.same" | "dmg", "backup.local.dry.new" => some ("ok", [.write .snapshot])
   | "none", "rewrite.forget.dry" | "hc", "rewrite.forget.dry" => some ("ok", [.remove .snapshot, .write .snapshot])
   | "none", "rewrite.keep.dry" | "hc", "rewrite.keep.dry" => some ("ok", [.write .snapshot])
   -- a tree rewrite with default options clears the device id of every node: new trees even without an exclude
@@ -484,7 +513,7 @@ def isHotColdDamage (damage : String) : Bool :=
 
 /-- the row of a dry token with the dry-run flag cleared (the twin the harness runs). -/
 def Cmd.nonDry : Cmd → Cmd
-  | .backup _ => .backup false
+  | .backup s _ => .backup s false
   | .repairIndex _ => .repairIndex false
   | .repairSnapshots d _ => .repairSnapshots d false
   | .rewriteSnapshots f _ => .rewriteSnapshots f false
@@ -508,6 +537,10 @@ def dryTwinCases : List (String × String) :=
    ("hcdmg", "repair_snap.delete.dry"), ("hcdmg", "repair_snap.keep.dry"),
    ("hcpack", "repair_index.dry"), ("hcindex", "repair_index.dry"),
    ("hcmiss", "hotcold.dry"), ("hcmissp", "hotcold.packs.dry"), ("hcmissp", "hotcold.dry"),
-   ("none", "hotcold.dry"), ("none", "hotcold.packs.dry"), ("none", "repair_index.dry"), ("none", "repair_snap.delete.dry")]
+   ("none", "hotcold.dry"), ("none", "hotcold.packs.dry"), ("none", "repair_index.dry"), ("none", "repair_snap.delete.dry"),
+   ("none", "backup.cmd.dry.new"), ("none", "backup.cmd.dry.same"), ("hc", "backup.cmd.dry.new"), ("hc", "backup.cmd.dry.same"),
+   ("dmg", "backup.cmd.dry.new"), ("hcdmg", "backup.cmd.dry.same"),
+   ("none", "backup.local.dry.new"), ("none", "backup.local.dry.same"), ("hc", "backup.local.dry.new"),
+   ("hc", "backup.local.dry.same"), ("dmg", "backup.local.dry.new")]
 
 end Rustic.CommandTable
